@@ -2,9 +2,10 @@ import Abverif.Proofs.Lemmas.SessGone
 /-
 C11 — events reach exactly the handlers subscribed at that moment.
 
-Statements about `Model/Session.lean` (EVENT branch = `dispatch`, with the live-list cursor and the aliased kwargs
-dict explicit; `apiUnsubscribe`; the Subscribed/Unsubscribed branches) for every state / history, both scheduling modes
-and every behaviour of the handlers. The reference fan-out is `SessSpec.fanout`.
+Statements about `Model/Session.lean` (EVENT branch = `dispatch`: a snapshot of the handler list, inactive
+subscriptions skipped, one kwargs dict per handler — the code after the repairs of F8 and F9; `apiUnsubscribe`; the
+Subscribed/Unsubscribed branches) for every state / history, both scheduling modes and every behaviour of the
+handlers. The reference fan-out is `SessSpec.fanout`.
 -/
 namespace Abverif.Session
 open Abverif.SessCodes Abverif.SessSpec
@@ -56,7 +57,7 @@ theorem unsubscribe_sent_iff_last (s : Sess) (o : Nat) (snd : SendRes) (sid : Su
       rcases f5 with e | e <;> simp [sends, completions, e]
 
 /-- non-vacuity: three handlers on id 77; only the third removal sends UNSUBSCRIBE -/
-example : sends (runOuts (init .sync) [.open_, .msg (.welcome 1) [], .api (.subscribe 1 9 none .ok), .api (.subscribe 2 9 none .ok),
+example : sends (runOuts (init .sync) [.open_ [], .msg (.welcome 1) [], .api (.subscribe 1 9 none .ok), .api (.subscribe 2 9 none .ok),
       .api (.subscribe 3 9 none .ok), .msg (.subscribed 1 77) [], .msg (.subscribed 2 77) [], .msg (.subscribed 3 77) [],
       .api (.unsubscribe 1 .ok), .api (.unsubscribe 0 .ok), .api (.unsubscribe 2 .ok)]) =
     [{ typ := .hello }, { typ := .subscribe, req := 1, uri := 9 }, { typ := .subscribe, req := 2, uri := 9 },
@@ -80,7 +81,7 @@ theorem event_unknown_sub_is_violation (s : Sess) (sid : Nat) (hs : s.sessionId 
 
 /-- the race, on a concrete history: EVENT between `unsubscribe()` and UNSUBSCRIBED is dropped, after UNSUBSCRIBED it
 is a violation -/
-example : (run (init .sync) [.open_, .msg (.welcome 1) [], .api (.subscribe 1 9 none .ok), .msg (.subscribed 1 77) [],
+example : (run (init .sync) [.open_ [], .msg (.welcome 1) [], .api (.subscribe 1 9 none .ok), .msg (.subscribed 1 77) [],
       .msg (.event 77 1 { args := some [5] }) [], .api (.unsubscribe 0 .ok), .msg (.event 77 2 {}) [],
       .msg (.unsubscribed 2) [], .msg (.event 77 3 {}) [], .msg (.event 78 4 {}) []]).2.drop 4 =
     [[.invoke 0 1 [5] []], [.send { typ := .unsubscribe, req := 2, uri := 77 }, .ret 1], [],
@@ -162,16 +163,16 @@ theorem no_call_after_unsubscribe (mode : Sched) (h1 : List SEv) (o : Nat) (snd 
     exact (run_gone (unsubscribe_makes_gone hi hfs ht snd) h2).2
 
 /-- the same inside one EVENT dispatch: when a handler synchronously unsubscribes a sibling `o`, the rest of the
-fan-out (from any cursor position) does not call `o` -/
+fan-out (over whatever is left of the snapshot) does not call `o` -/
 theorem no_call_after_synchronous_unsubscribe {s : Sess} (hi : Inv s) {o : Nat} (hf : findSub o s.subs ≠ none)
-    (ht : s.transport = true) (fuel : Nat) (sub : SubId) (idx : Nat) (args : Args) (kw : List (Key × KwVal)) (beh : List HAct) :
-    ∀ x ∈ (dispatch fuel (apiStep s (.unsubscribe o .ok)).1 sub idx args kw beh).2, invokesObj o x = false := by
+    (ht : s.transport = true) (sub : SubId) (args : Args) (kw : List (Key × KwVal)) (l : List SubRec) (beh : List HAct) :
+    ∀ x ∈ (dispatch (apiStep s (.unsubscribe o .ok)).1 sub args kw l beh).2, invokesObj o x = false := by
   cases hfs : findSub o s.subs with
   | none => exact absurd hfs hf
-  | some sid => exact ((goneLift o).dispatch fuel (unsubscribe_makes_gone hi hfs ht .ok) sub idx args kw beh).2
+  | some sid => exact ((goneLift o).dispatch (unsubscribe_makes_gone hi hfs ht .ok) sub args kw l beh).2
 
 /-- non-vacuity: handler 1 is called for the first event, unsubscribed, and not called for the second -/
-example : (runOuts (init .sync) [.open_, .msg (.welcome 1) [], .api (.subscribe 1 9 none .ok), .api (.subscribe 2 9 none .ok),
+example : (runOuts (init .sync) [.open_ [], .msg (.welcome 1) [], .api (.subscribe 1 9 none .ok), .api (.subscribe 2 9 none .ok),
       .msg (.subscribed 1 77) [], .msg (.subscribed 2 77) [], .msg (.event 77 1 {}) [], .api (.unsubscribe 0 .ok),
       .msg (.event 77 2 {}) []]).filter isInvoke =
     [.invoke 0 1 [] [], .invoke 1 2 [] [], .invoke 1 2 [] []] := by decide
@@ -179,52 +180,51 @@ example : (runOuts (init .sync) [.open_, .msg (.welcome 1) [], .api (.subscribe 
 
 /-! ## dispatch_exact -/
 
-/-- `dispatch_exact`, full statement: on EVENT(sub, …) the model's loop over the live handler list does exactly what the
-Spec's fan-out does — the handlers attached at arrival, once each, in subscription order (skipping one that an earlier
-handler of this dispatch detached), each with the event's args/kwargs plus the details under its *own* `details_arg`
-only — whatever the handlers do. -/
+/-- `dispatch_exact`, full statement: on EVENT(sub, …) the model's loop does exactly what the Spec's fan-out does — the
+handlers attached at arrival, once each, in subscription order (skipping one that an earlier handler of this dispatch
+detached), each with the event's args/kwargs plus the details under its *own* `details_arg` only — whatever the
+handlers do. -/
 def DispatchExact : Prop :=
   ∀ (s : Sess) (sub : SubId) (l : List SubRec) (args : Args) (kw : List (Key × KwVal)) (beh : List HAct),
-    alookup sub s.subs = some l → dispatch l.length s sub 0 args kw beh = fanout s sub args kw l beh
+    dispatch s sub args kw l beh = fanout s sub args kw l beh
+
+/-- `dispatch_exact` holds in full (since the repairs of F8 — one kwargs dict per handler — and F9 — iteration over a
+snapshot, inactive subscriptions skipped). -/
+theorem dispatch_exact : DispatchExact := by
+  intro s sub l args kw beh
+  induction l generalizing s beh with
+  | nil => rfl
+  | cons r rest ih =>
+    unfold dispatch fanout
+    split
+    · simp only [ih]
+    · exact ih s beh
+
+/-- … so the EVENT branch of `onMessage` is the Spec's fan-out over the handlers attached at arrival -/
+theorem event_is_fanout (s : Sess) (sid : Nat) (hs : s.sessionId = some sid) (sub : SubId) (pub : Nat) (p : Payload)
+    (beh : List HAct) (l : List SubRec) (hl : alookup sub s.subs = some l) :
+    step s (.msg (.event sub pub p) beh) = fanout s sub (p.args.getD []) (kwOfPayload p) l beh := by
+  simp only [step, onMessage, hs, onEstablished, hl]
+  exact dispatch_exact _ _ _ _ _ _
 
 /-- the state after: h1 subscribed with `details_arg="details"`, h2 without, both attached under id 77 -/
-def sF8 : Sess := runState (init .sync) [.open_, .msg (.welcome 1) [], .api (.subscribe 1 9 (some { detailsArg := some 0 }) .ok),
+def sF8 : Sess := runState (init .sync) [.open_ [], .msg (.welcome 1) [], .api (.subscribe 1 9 (some { detailsArg := some 0 }) .ok),
   .api (.subscribe 2 9 none .ok), .msg (.subscribed 1 77) [], .msg (.subscribed 2 77) []]
 
-/-- it fails (F8): the kwargs dict of the message is shared, so with kwargs `{5: 2}` h2 is called with h1's details -/
-theorem dispatch_exact_fails_F8 : ¬ DispatchExact := by
-  intro h
-  have := h sF8 77 [{ obj := 0, h := 1, detailsArg := some 0, topic := 9 }, { obj := 1, h := 2, detailsArg := none, topic := 9 }]
-    [1] [(5, .v 2)] [] (by decide)
-  revert this
-  decide
-
 /-- the state after: handlers a, b, c attached under id 77 -/
-def sF9 : Sess := runState (init .sync) [.open_, .msg (.welcome 1) [], .api (.subscribe 1 9 none .ok), .api (.subscribe 2 9 none .ok),
+def sF9 : Sess := runState (init .sync) [.open_ [], .msg (.welcome 1) [], .api (.subscribe 1 9 none .ok), .api (.subscribe 2 9 none .ok),
   .api (.subscribe 3 9 none .ok), .msg (.subscribed 1 77) [], .msg (.subscribed 2 77) [], .msg (.subscribed 3 77) []]
 
-/-- it fails (F9): a unsubscribes itself synchronously; the live list shifts under the cursor and b is not called -/
-theorem dispatch_exact_fails_F9 : ¬ DispatchExact := by
-  intro h
-  have := h sF9 77 [{ obj := 0, h := 1, detailsArg := none, topic := 9 }, { obj := 1, h := 2, detailsArg := none, topic := 9 },
-      { obj := 2, h := 3, detailsArg := none, topic := 9 }]
-    [1] [] [{ calls := [.unsubSelf] }] (by decide)
-  revert this
-  decide
-
-/-- what the model does on these two inputs (the defects themselves) -/
-example : (dispatch 2 sF8 77 0 [1] [(5, .v 2)] []).2 =
-    [.invoke 0 1 [1] [(5, .v 2), (0, .details 0)], .invoke 1 2 [1] [(5, .v 2), (0, .details 0)]] := by decide
-example : ((dispatch 3 sF9 77 0 [1] [] [{ calls := [.unsubSelf] }]).2.filter isInvoke) =
-    [.invoke 0 1 [1] [], .invoke 2 3 [1] []] := by decide
-
-/-- no handler of the dispatch calls `unsubscribe()` synchronously (on any subscription) -/
-def QuietAct (a : HAct) : Prop := ∀ c ∈ a.calls, c ≠ .unsubSelf ∧ ∀ o r, c ≠ .api (.unsubscribe o r)
-
-/-- the kwargs dict cannot carry one handler's details to another: it is empty, or no handler asks for details, or all
-ask for them under the same key (then each overwrites its predecessor's) -/
-def NoLeak (l : List SubRec) (kw : List (Key × KwVal)) : Prop :=
-  kw = [] ∨ (∀ r ∈ l, r.detailsArg = none) ∨ (∃ k, ∀ r ∈ l, r.detailsArg = some k)
+/-- non-vacuity, on the two inputs that broke the code before the repairs (ledger F8, F9): with kwargs `{5: 2}` h2 is
+called *without* h1's details; when a unsubscribes itself synchronously b and c are still called -/
+example : (runOuts sF8 [.msg (.event 77 1 { args := some [1], kwargs := some [(5, 2)] }) []]) =
+    [.invoke 0 1 [1] [(5, .v 2), (0, .details 0)], .invoke 1 2 [1] [(5, .v 2)]] := by decide
+example : ((runOuts sF9 [.msg (.event 77 1 { args := some [1] }) [{ calls := [.unsubSelf] }]]).filter isInvoke) =
+    [.invoke 0 1 [1] [], .invoke 1 2 [1] [], .invoke 2 3 [1] []] := by decide
+/-- a handler detached by an earlier handler of the same dispatch is not called (no call after unsubscribe wins over
+"attached at arrival") -/
+example : ((runOuts sF9 [.msg (.event 77 1 {}) [{ calls := [.api (.unsubscribe 1 .ok)] }]]).filter isInvoke) =
+    [.invoke 0 1 [] [], .invoke 2 3 [] []] := by decide
 
 theorem apiStep_subs {s : Sess} {a : Api} (h : ∀ o r, a ≠ .unsubscribe o r) : (apiStep s a).1.subs = s.subs := by
   cases a with
@@ -262,129 +262,11 @@ theorem apiStep_subs {s : Sess} {a : Api} (h : ∀ o r, a ≠ .unsubscribe o r) 
         · rfl
         · unfold cancelDo; split <;> rfl
   | join => simp only [apiStep, apiJoin]; split <;> (try split) <;> rfl
-  | leave => simp only [apiStep, apiLeave]; split <;> (try split) <;> rfl
-
-theorem runCalls_subs {s : Sess} (self : Option FutId) {cs : List HCall}
-    (h : ∀ c ∈ cs, c ≠ .unsubSelf ∧ ∀ o r, c ≠ .api (.unsubscribe o r)) : (runCalls s self cs).1.subs = s.subs := by
-  induction cs generalizing s with
-  | nil => rfl
-  | cons c cs ih =>
-    have hc := h c List.mem_cons_self
-    have ht := fun c' hc' => h c' (List.mem_cons_of_mem _ hc')
-    cases c with
-    | unsubSelf => exact absurd rfl hc.1
-    | api a =>
-      rw [runCalls_api]
-      simp only []
-      rw [ih ht, apiStep_subs (fun o r e => hc.2 o r (e ▸ rfl))]
-
-theorem runAct_subs {s : Sess} (self : Option FutId) {a : HAct} (h : QuietAct a) : (runAct s self a).1.subs = s.subs := by
-  unfold runAct
-  split
-  · simp only []; rw [(emitCb_fields _ _).2.1, runCalls_subs self h]
-  · exact runCalls_subs self h
-
-theorem insertKw_insertKw (k : Key) (v1 v2 : KwVal) (kw : List (Key × KwVal)) :
-    insertKw k v2 (insertKw k v1 kw) = insertKw k v2 kw := by
-  induction kw with
-  | nil => simp [insertKw]
-  | cons e t ih =>
-    obtain ⟨k', v'⟩ := e
-    simp only [insertKw]
-    split
-    · next e => simp [insertKw]
-    · next ne => simp [insertKw, ne, ih]
-
-theorem insertKw_ne_nil (k : Key) (v : KwVal) (kw : List (Key × KwVal)) : insertKw k v kw ≠ [] := by
-  cases kw with
-  | nil => simp [insertKw]
-  | cons e t => obtain ⟨k', v'⟩ := e; simp only [insertKw]; split <;> simp
-
-/-- what the loop keeps true about the (possibly mutated) kwargs dict `kw` relative to the message's own `kw0` -/
-def KwInv (l : List SubRec) (kw0 kw : List (Key × KwVal)) : Prop :=
-  (kw0 = [] → kw = []) ∧ ∀ r ∈ l, handlerKw r kw = handlerKw r kw0
-
-theorem KwInv.next {l : List SubRec} {kw0 kw : List (Key × KwVal)} (hn : NoLeak l kw0) (h : KwInv l kw0 kw)
-    {r : SubRec} (hr : r ∈ l) : KwInv l kw0 (if kw.isEmpty then kw else handlerKw r kw) := by
-  split
-  · exact h
-  · next hne =>
-    rcases hn with h0 | hnone | ⟨k, hk⟩
-    · have := h.1 h0; subst this; simp at hne
-    · have : handlerKw r kw = kw := by simp [handlerKw, hnone r hr]
-      rw [this]; exact h
-    · refine ⟨fun h0 => ?_, fun r' hr' => ?_⟩
-      · have := h.1 h0; subst this; simp at hne
-      · have e1 : handlerKw r kw = insertKw k (.details r.obj) kw := by simp [handlerKw, hk r hr]
-        have e2 : ∀ kw', handlerKw r' kw' = insertKw k (.details r'.obj) kw' := fun kw' => by simp [handlerKw, hk r' hr']
-        rw [e1, e2, insertKw_insertKw, ← e2, h.2 r' hr']
-
-theorem dispatch_eq_fanout (l : List SubRec) (sub : SubId) (args : Args) (kw0 : List (Key × KwVal)) (hn : NoLeak l kw0) :
-    ∀ (n : Nat) (fuel idx : Nat) (s : Sess) (kw : List (Key × KwVal)) (beh : List HAct),
-      l.length - idx ≤ n → n ≤ fuel → alookup sub s.subs = some l → KwInv l kw0 kw → (∀ a ∈ beh, QuietAct a) →
-      dispatch fuel s sub idx args kw beh = fanout s sub args kw0 (l.drop idx) beh := by
-  intro n
-  induction n with
-  | zero =>
-    intro fuel idx s kw beh hle _ hl _ _
-    have hdrop : l.drop idx = [] := List.drop_eq_nil_of_le (by omega)
-    rw [hdrop]
-    cases fuel with
-    | zero => rfl
-    | succ f =>
-      have : (alookup sub s.subs).bind (·[idx]?) = none := by
-        rw [hl]; simp only [Option.bind_some]; exact List.getElem?_eq_none (by omega)
-      simp [dispatch, this, fanout]
-  | succ n ih =>
-    intro fuel idx s kw beh hle hfuel hl hkw hq
-    by_cases hidx : l.length ≤ idx
-    · exact ih fuel idx s kw beh (by omega) (by omega) hl hkw hq |>.trans rfl |> fun h => by
-        have hdrop : l.drop idx = [] := List.drop_eq_nil_of_le hidx
-        rw [hdrop]
-        cases fuel with
-        | zero => rfl
-        | succ f =>
-          have : (alookup sub s.subs).bind (·[idx]?) = none := by
-            rw [hl]; simp only [Option.bind_some]; exact List.getElem?_eq_none hidx
-          simp [dispatch, this, fanout]
-    · have hlt : idx < l.length := by omega
-      obtain ⟨f, rfl⟩ : ∃ f, fuel = f + 1 := ⟨fuel - 1, by omega⟩
-      have hget : (alookup sub s.subs).bind (·[idx]?) = some l[idx] := by
-        rw [hl]; simp only [Option.bind_some]; exact List.getElem?_eq_getElem hlt
-      have hmem : l[idx] ∈ l := List.getElem_mem hlt
-      have hdrop : l.drop idx = l[idx] :: l.drop (idx + 1) := List.drop_eq_getElem_cons hlt
-      have hqa : QuietAct (beh.headD {}) := by
-        cases beh with
-        | nil => intro c hc; simp at hc
-        | cons a t => exact hq a List.mem_cons_self
-      have hqt : ∀ a ∈ beh.tail, QuietAct a := fun a ha => hq a (List.mem_of_mem_tail ha)
-      have hsubs := runAct_subs (s := s) (some l[idx].obj) hqa
-      have hl' : alookup sub (runAct s (some l[idx].obj) (beh.headD {})).1.subs = some l := by rw [hsubs]; exact hl
-      have hrec := ih f (idx + 1) (runAct s (some l[idx].obj) (beh.headD {})).1
-        (if kw.isEmpty then kw else handlerKw l[idx] kw) beh.tail (by omega) (by omega) hl' (hkw.next hn hmem) hqt
-      have hatt : ((alookup sub s.subs).getD []).any (·.obj == l[idx].obj) = true := by
-        rw [hl]; simp only [Option.getD_some, List.any_eq_true, beq_iff_eq]; exact ⟨l[idx], hmem, rfl⟩
-      rw [hdrop]
-      simp only [dispatch, hget, fanout, hatt, if_true]
-      rw [hrec, hkw.2 _ hmem]
-
-/-- `dispatch_exact_partial`: outside the two defect shapes — no handler of this dispatch unsubscribes synchronously
-(F9), and the kwargs cannot leak details (F8: empty kwargs, or no `details_arg`, or one common `details_arg`) — the
-model's EVENT loop *is* the Spec's fan-out: same final state, same outputs in the same order. Handlers may return,
-raise, subscribe new handlers, call, publish, register, cancel. -/
-theorem dispatch_exact_partial (s : Sess) (sub : SubId) (l : List SubRec) (args : Args) (kw : List (Key × KwVal))
-    (beh : List HAct) (hl : alookup sub s.subs = some l) (hleak : NoLeak l kw) (hquiet : ∀ a ∈ beh, QuietAct a) :
-    dispatch l.length s sub 0 args kw beh = fanout s sub args kw l beh := by
-  have := dispatch_eq_fanout l sub args kw hleak l.length l.length 0 s kw beh (by omega) (Nat.le_refl _) hl
-    ⟨fun h => h, fun _ _ => rfl⟩ hquiet
-  simpa using this
+  | leave => simp only [apiStep, apiLeave]; split <;> (try split) <;> (try split) <;> rfl
+  | disconnect => simp only [apiStep, apiDisconnect]; split <;> rfl
 
 
 /-! ## handler_error_isolated -/
-
-def isRaise : SOut → Bool
-  | .raise_ _ => true
-  | _ => false
 
 theorem runCalls_no_raise (s : Sess) (self : Option FutId) (cs : List HCall) : ∀ x ∈ (runCalls s self cs).2, isRaise x = false := by
   induction cs generalizing s with
@@ -422,20 +304,20 @@ theorem runAct_no_raise (s : Sess) (self : Option FutId) (a : HAct) : ∀ x ∈ 
 
 /-- `handler_error_isolated` (1): whatever the handlers of an EVENT do — raise, or have their own API calls raise —
 no exception leaves `onMessage`: the dispatch outputs no `raise_`. -/
-theorem handler_raise_never_escapes (fuel : Nat) (s : Sess) (sub : SubId) (idx : Nat) (args : Args) (kw : List (Key × KwVal))
-    (beh : List HAct) : ∀ x ∈ (dispatch fuel s sub idx args kw beh).2, isRaise x = false := by
-  induction fuel generalizing s idx kw beh with
-  | zero => intro x hx; simp [dispatch] at hx
-  | succ n ih =>
+theorem handler_raise_never_escapes (s : Sess) (sub : SubId) (args : Args) (kw : List (Key × KwVal)) (l : List SubRec)
+    (beh : List HAct) : ∀ x ∈ (dispatch s sub args kw l beh).2, isRaise x = false := by
+  induction l generalizing s beh with
+  | nil => intro x hx; simp [dispatch] at hx
+  | cons r rest ih =>
     unfold dispatch
     split
-    · intro x hx; simp at hx
     · intro x hx
       rcases List.mem_cons.mp hx with h | h
       · rw [h]; rfl
       · rcases List.mem_append.mp h with h | h
         · exact runAct_no_raise _ _ _ x h
-        · exact ih _ _ _ _ x h
+        · exact ih _ _ x h
+    · exact ih s beh
 
 /-- a handler's behaviour with the "raises" bit cleared -/
 def HAct.calm (a : HAct) : HAct := { a with raises := false }
@@ -487,7 +369,8 @@ theorem apiStep_mode (s : Sess) (a : Api) : (apiStep s a).1.mode = s.mode := by
         · rfl
         · unfold cancelDo; split <;> rfl
   | join => simp only [apiStep, apiJoin]; split <;> (try split) <;> rfl
-  | leave => simp only [apiStep, apiLeave]; split <;> (try split) <;> rfl
+  | leave => simp only [apiStep, apiLeave]; split <;> (try split) <;> (try split) <;> rfl
+  | disconnect => simp only [apiStep, apiDisconnect]; split <;> rfl
 
 theorem runCalls_mode (s : Sess) (self : Option FutId) (cs : List HCall) : (runCalls s self cs).1.mode = s.mode := by
   induction cs generalizing s with
@@ -523,27 +406,26 @@ equal there too is not proved, only observed by the correspondence runs): cleari
 changes nothing but the `onUserError` notifications — same final state (handler lists, tables, futures), same
 invocations with the same arguments in the same order, same messages sent. A raising handler neither prevents
 delivery to the others nor harms the session. -/
-theorem handler_error_isolated_partial (fuel : Nat) (s : Sess) (hm : s.mode = .sync) (sub : SubId) (idx : Nat) (args : Args)
-    (kw : List (Key × KwVal)) (beh : List HAct) :
-    (dispatch fuel s sub idx args kw beh).1 = (dispatch fuel s sub idx args kw (beh.map HAct.calm)).1 ∧
-    (dispatch fuel s sub idx args kw beh).2.filter (· != .userError) =
-      (dispatch fuel s sub idx args kw (beh.map HAct.calm)).2.filter (· != .userError) := by
-  induction fuel generalizing s idx kw beh with
-  | zero => exact ⟨rfl, rfl⟩
-  | succ n ih =>
+theorem handler_error_isolated_partial (s : Sess) (hm : s.mode = .sync) (sub : SubId) (args : Args)
+    (kw : List (Key × KwVal)) (l : List SubRec) (beh : List HAct) :
+    (dispatch s sub args kw l beh).1 = (dispatch s sub args kw l (beh.map HAct.calm)).1 ∧
+    (dispatch s sub args kw l beh).2.filter (· != .userError) =
+      (dispatch s sub args kw l (beh.map HAct.calm)).2.filter (· != .userError) := by
+  induction l generalizing s beh with
+  | nil => exact ⟨rfl, rfl⟩
+  | cons r rest ih =>
+    have hhead : (beh.map HAct.calm).headD {} = (beh.headD {}).calm := by cases beh <;> rfl
+    have htail : (beh.map HAct.calm).tail = beh.tail.map HAct.calm := by cases beh <;> rfl
     unfold dispatch
     split
-    · exact ⟨rfl, rfl⟩
-    · next r _ =>
-      have hhead : (beh.map HAct.calm).headD {} = (beh.headD {}).calm := by cases beh <;> rfl
-      have htail : (beh.map HAct.calm).tail = beh.tail.map HAct.calm := by cases beh <;> rfl
-      obtain ⟨e1, e2, e3⟩ := runAct_sync hm (some r.obj) (beh.headD {})
-      obtain ⟨i1, i2⟩ := ih (runAct s (some r.obj) (beh.headD {})).1 e3 (idx + 1) (if kw.isEmpty then kw else handlerKw r kw) beh.tail
+    · obtain ⟨e1, e2, e3⟩ := runAct_sync hm (some r.obj) (beh.headD {})
+      obtain ⟨i1, i2⟩ := ih (runAct s (some r.obj) (beh.headD {})).1 e3 beh.tail
       simp only [hhead, htail]
       rw [← e1]
       refine ⟨i1, ?_⟩
       simp only [List.filter_cons, List.filter_append]
       rw [e2, i2]
+    · exact ih s hm beh
 
 /-- non-vacuity: three handlers, the first and third raise; all three are called, nothing escapes -/
 example : runOuts sF9 [.msg (.event 77 1 { args := some [4] }) [{ raises := true }, {}, { raises := true }]] =
@@ -584,6 +466,7 @@ theorem apiStep_nosub {s : Sess} {sub : SubId} (a : Api) (h : alookup sub s.subs
   | cancel f => rw [apiStep_subs (fun _ _ e => by cases e)]; exact h
   | join => rw [apiStep_subs (fun _ _ e => by cases e)]; exact h
   | leave => rw [apiStep_subs (fun _ _ e => by cases e)]; exact h
+  | disconnect => rw [apiStep_subs (fun _ _ e => by cases e)]; exact h
 
 /-- `NoSubRel sub`: a step relation that only says "afterwards id `sub` is (still) not held" -/
 def NoSubRel (sub : SubId) (_ : Sess) (_ : List SOut) (s' : Sess) : Prop := alookup sub s'.subs = none
@@ -605,28 +488,35 @@ theorem rejectList_subs (s : Sess) (o : Outcome) (fs : List FutId) : (rejectList
     · exact ih s
     · simp only []; rw [ih, (settle_fields _ _ _).1]
 
-theorem onLeaveDefault_subs (s : Sess) (reason : Nat) : (onLeaveDefault s reason).1.subs = s.subs := by
-  unfold onLeaveDefault
-  simp only []
-  split
-  · simp only []; rw [(emitCb_fields _ _).2.1, rejectList_subs]; rfl
-  · rw [rejectList_subs]; rfl
+theorem noSubLiftX (sub : SubId) : LiftX (NoSubRel sub) (fun s => alookup sub s.subs = none) (fun _ => true) where
+  toLift := noSubLift sub
+  okOf := fun _ _ => rfl
+  lc := fun h hc => by show alookup sub _ = none; rw [(core_fields hc).2.2.1]; exact h
+  out := fun h _ => h
+  emit := fun h _ => by show alookup sub (emitCb _ _).1.subs = none; rw [(emitCb_fields _ _).2.1]; exact h
+  enq := fun _ h => h
+  lostMap := fun r => r
+  cbqOk := fun _ _ _ => rfl
+  clearQ := fun h => h
+  rejectAll := fun o h => by show alookup sub (rejectList _ _ _).1.subs = none; rw [rejectList_subs]; exact h
 
 /-- a step that is not "SUBSCRIBED naming `sub`" cannot make the session hold `sub` -/
 theorem step_nosub {s : Sess} {sub : SubId} (e : SEv) (he : ∀ id beh, e ≠ .msg (.subscribed id sub) beh)
     (h : alookup sub s.subs = none) : alookup sub (step s e).1.subs = none := by
   cases e with
   | api a => exact apiStep_nosub a h
-  | pump => exact h
-  | open_ => simp only [step]; rw [(emitCb_fields _ _).2.1]; exact h
-  | closed =>
-    simp only [step]; split
-    · rw [onLeaveDefault_subs]; exact h
-    · rw [rejectList_subs]; exact h
+  | pump => exact (noSubLiftX sub).drain 8 h
+  | tick => exact (noSubLiftX sub).tick h
+  | open_ acts => exact (noSubLiftX sub).onOpen h acts
+  | closed acts => exact (noSubLiftX sub).onClose h acts
+  | fault l => exact h
+  | resolve req r => exact (noSubLiftX sub).settleInv h req _
+  | fail req e => exact (noSubLiftX sub).settleInv h req _
+  | lateProgress req v => exact (noSubLiftX sub).lateProgress h req v
   | msg m beh =>
     simp only [step, onMessage]
     split
-    · split <;> exact h
+    · exact (noSubLiftX sub).preSession h beh m
     · have hpop : ∀ (kind : Kind) (id : ReqId) (k : Sess → Req → Sess × List SOut),
           (∀ s1 r, alookup sub s1.subs = none → alookup sub (k s1 r).1.subs = none) →
           alookup sub (popReply s kind id k).1.subs = none := by
@@ -646,11 +536,15 @@ theorem step_nosub {s : Sess} {sub : SubId} (e : SEv) (he : ∀ id beh, e ≠ .m
         split
         · rw [alookup_append, h1]; simp [alookup_cons, Ne.symm hne]
         · exact alookup_aupd_none _ h1
-      | goodbye => simp only [onEstablished]; rw [onLeaveDefault_subs]; exact h
+      | goodbye =>
+        simp only [onEstablished]
+        split
+        · exact h
+        · exact (noSubLiftX sub).goodbye h _
       | event sub' pub p =>
         simp only [onEstablished]; split
         · exact h
-        · exact (noSubLift sub).dispatch _ h _ _ _ _ _
+        · exact (noSubLift sub).dispatch h _ _ _ _ _
       | published id pub =>
         simp only [onEstablished]
         exact hpop _ _ _ (fun s1 r h1 => by rw [(settle_fields _ _ _).1]; exact h1)
@@ -663,13 +557,7 @@ theorem step_nosub {s : Sess} {sub : SubId} (e : SEv) (he : ∀ id beh, e ≠ .m
         · split
           · split
             · exact h
-            · split
-              · exact h
-              · split
-                · split
-                  · exact (noSubLift sub).runAct h none _
-                  · exact h
-                · exact (noSubLift sub).runAct h none _
+            · exact (noSubLift sub).runAct h none _
           · split
             · exact h
             · rw [(settle_fields _ _ _).1]; exact h
@@ -691,11 +579,8 @@ theorem step_nosub {s : Sess} {sub : SubId} (e : SEv) (he : ∀ id beh, e ≠ .m
           · split
             · simpa using h
             · rw [(settle_fields _ _ _).1]; simpa using h
-      | invocation id reg p =>
-        simp only [onEstablished]; split
-        · exact h
-        · split <;> exact h
-      | interrupt id => exact h
+      | invocation id reg p rp => exact (noSubLiftX sub).onInvocation h beh id reg p rp
+      | interrupt id => exact (noSubLiftX sub).settleInv h id _
       | welcome sid => exact h
       | abort => exact h
       | challenge => exact h
